@@ -559,7 +559,7 @@ func TestMain(m *testing.M) { os.Exit(m.Run()) }
 
 func TestWorld(t *testing.T) {
 	super.Main(world{t}, super.Config{
-		QuickCases:       400,
+		QuickCases:       320,
 		ThoroughSeconds:  900,
 		CaseTimeout:      40e9,
 		WatchdogTimeout:  10e9,
